@@ -36,7 +36,7 @@ ANCHOR_FILES = ("_core", "_namespace", "_typehints", "_util", "_common")
 NO_SHRINK = ("parser/opts", "parser/opts/*", "world", "world/*")
 SHRINK_DICTS = ("ops/*/obj", "ops/*/env", "ops/*/base", "ops/*/ns")
 
-FEATS = ["l", "ll", "d", "dl", "t", "st", "tl", "x", "n", "p", "inner", "dd", "dg", "obj", "objs", "dobjs", "odobjs", "holder", "model", "pr", "sd", "dcf", "ostr", "sub", "subreq"]
+FEATS = ["l", "ll", "d", "dl", "t", "st", "tl", "x", "n", "p", "inner", "dd", "dg", "obj", "objs", "dobjs", "odobjs", "holder", "model", "pr", "sd", "dcf", "ostr", "sub", "subreq", "pos"]
 
 
 def parser_spec(feats, eoe):
@@ -101,6 +101,11 @@ def parser_spec(feats, eoe):
                 },
             }
         )
+    if "pos" in feats and "sub" not in feats:
+        # optional positional with a declared list default: argparse hands the default OBJECT to the action
+        # (a positional cannot be declared with default=; set_defaults is the way to give it one)
+        A.append({"k": "arg", "name": "pos", "type": "list_float", "nargs": "?", "positional": True})
+        A.append({"k": "set_defaults", "values": {"pos": [1, 2]}})
     opts = {"exit_on_error": eoe}
     if "sd" in feats:
         vals = {}
@@ -124,9 +129,10 @@ OBJ = {
     "ll": [{"ll": [[1, 2], [3]]}],
     "d": [{"d": {"k": 1}}],
     "dl": [{"dl": {"k": [1, 2]}}],
-    "t": [{"t": {"__tuple__": [[1, 2], 3]}}, {"t": [[1, 2], 3]}],
+    "t": [{"t": {"__tuple__": [[1, 2], 3]}}, {"t": [[1, 2], 3]}, {"t": {"__ntuple__": [[1, 2], 3]}}],
+    "pos": [{"pos": [3, 4]}],
     "st": [{"st": {"__set__": [1, 2]}}],
-    "tl": [{"tl": [{"__tuple__": [1, 2]}]}, {"tl": [[1, 2]]}],
+    "tl": [{"tl": [{"__tuple__": [1, 2]}]}, {"tl": [[1, 2]]}, {"tl": [{"__ntuple__": [1, 2]}]}],
     "x": [{"x": {"q": [1, {"__tuple__": [2, [3]]}]}}, {"x": {"class_path": "dsim.simtypes.Base"}}],
     "n": [{"n": ["1", "2"]}, {"n": [1]}],
     "p": [{"p": "A/pa.txt"}, {"p": "A/missing.txt"}],
@@ -165,6 +171,7 @@ ARGV = {
     "holder": [["--holder=Holder"], ["--holder=Holder", "--holder.inner=Base"]],
     "model": [["--model.base=Sub1"], ["--model.name=z"]],
     "p": [["--p=A/pa.txt"]],
+    "pos": [["[5, 6]"], []],
     "sub": [["fit"], ["fit", "--lr=0.3", "--tags+=4"], ["test", "--n=3"], ["test", "--ck=Base", "--ck.tags+=2"], ["fit", "--lr=bad"], ["nope"]],
 }
 # a caller-owned namespace= with NESTED groups (what an application that pre-fills a namespace hands over)
@@ -177,7 +184,7 @@ NSNEST = {
     "obj": [{"obj": {"__ns__": {"class_path": "dsim.simtypes.Base", "init_args": {"__ns__": {"n": 1.0, "tags": [1.0]}}}}}],
     "sub": [{"fit": {"__ns__": {"lr": 0.5, "tags": [2.0]}}}],
 }
-KINDS = ["parse_object", "parse_object", "parse_object_ns", "parse_object_base", "parse_args", "parse_args_ns", "parse_args_ns_nodefaults", "parse_args_nodefaults", "parse_path_obj", "save_obj", "inst_empty", "parse_string", "parse_env", "parse_path", "validate", "dump", "save", "merge", "strip", "inst", "defaults", "help", "inst2"]
+KINDS = ["parse_object_plain_ns", "inst_dict", "dump_dict", "parse_object", "parse_object", "parse_object_ns", "parse_object_base", "parse_args", "parse_args_ns", "parse_args_ns_nodefaults", "parse_args_nodefaults", "parse_path_obj", "save_obj", "inst_empty", "parse_string", "parse_env", "parse_path", "validate", "dump", "save", "merge", "strip", "inst", "defaults", "help", "inst2"]
 
 
 def _pick(rng, table, feats):
@@ -206,7 +213,7 @@ def gen_argv(rng, feats):
 def gen_op(rng, feats):
     kind = rng.choice(KINDS)
     op = {"kind": kind}
-    if kind in ("parse_object", "parse_object_ns"):
+    if kind in ("parse_object", "parse_object_ns", "parse_object_plain_ns", "inst_dict", "dump_dict"):
         op["obj"] = gen_obj(rng, feats)
     elif kind == "parse_object_base":
         op["obj"] = gen_obj(rng, feats)
@@ -282,6 +289,10 @@ def realise(v):
     if isinstance(v, dict):
         if "__tuple__" in v:
             return tuple(realise(x) for x in v["__tuple__"])
+        if "__ntuple__" in v:
+            from ..simtypes import NT2
+
+            return NT2(*(realise(x) for x in v["__ntuple__"]))
         if "__set__" in v:
             return set(v["__set__"])
         if "__ns__" in v:
@@ -322,6 +333,13 @@ def prepare(p, op):
         return {"cfg_obj": realise(op["obj"])}
     if k == "parse_object_ns":
         return {"cfg_obj": Namespace(realise(op["obj"]))}
+    if k == "parse_object_plain_ns":
+        import argparse
+
+        # what a legacy argparse parser (or Namespace.as_flat()) returns: not a jsonargparse Namespace
+        return {"cfg_obj": argparse.Namespace(**{kk: v for kk, v in realise(op["obj"]).items() if kk.isidentifier()})}
+    if k in ("inst_dict", "dump_dict"):
+        return {"cfg": realise(op["obj"])}  # the (deprecated, still accepted) plain dict
     if k == "parse_object_base":
         return {"cfg_obj": realise(op["obj"]), "cfg_base": Namespace(realise(op["base"]))}
     if k in ("parse_args", "parse_args_nodefaults"):
@@ -370,8 +388,12 @@ def prepare(p, op):
 
 def call(p, op, args):
     k = op["kind"]
-    if k in ("parse_object", "parse_object_ns"):
+    if k in ("parse_object", "parse_object_ns", "parse_object_plain_ns"):
         return p.parse_object(args["cfg_obj"])
+    if k == "inst_dict":
+        return p.instantiate_classes(args["cfg"])
+    if k == "dump_dict":
+        return p.dump(args["cfg"])
     if k == "parse_object_base":
         return p.parse_object(args["cfg_obj"], cfg_base=args["cfg_base"])
     if k == "parse_args":
